@@ -65,7 +65,7 @@ type Worker struct {
 	ex     *Explorer
 	vm     *VM
 	solver *solver.Solver
-	branches, unknownBranches, assertQueries, assertsChecked, trivialAsserts int64
+	branches, unknownBranches, assertQueries, assertsChecked, trivialAsserts, guessHits int64
 }
 
 func (w *Worker) push(prefix []int32) {
